@@ -4,6 +4,7 @@ pub mod recon;
 
 pub mod apifam;
 pub mod live;
+pub mod oldfmt;
 
 pub mod c01;
 pub mod c02;
